@@ -32,17 +32,20 @@ ASSUMPTIONS = [
     'synchronously, so at every evaluation the monitor sees the current /scheduled and monitor '
     'nodes (a delayed view is modelled instead by the cell carrying out accepted POSTs later: '
     'InstancesCreated / InstancesDeleted)',
-    'C20 is judged per evaluation against what the monitor sees; asking again for instances that '
-    'an accepted POST has promised but the cell has not created yet is not an overshoot in the '
-    'sense of the statement',
+    'C20 is judged per evaluation against the children of /scheduled at that moment (watches are '
+    'synchronous, so the grouping built by the real _scheduled_watch must agree with them; a '
+    'disagreement of the two logged views is additionally reported as drift); asking again for '
+    'instances that an accepted POST has promised but the cell has not created yet is not an '
+    'overshoot in the sense of the statement',
     'the rate budget is the token bucket of the code comment: full (2*count) at every '
     '(re)configuration, +2*count per hour up to 2*count, debited only by accepted POSTs, not '
     'refilled while the monitor is suspended (the time is credited when the suspension ends)',
     'clock values are whole seconds; float tokens are compared with the exact rational with a '
     'tolerance of 2e-6 token (1e-6 + rounding of the logged micro-tokens); within tolerance of an '
     'integer both floors are accepted',
-    'policies are fifo, lifo or absent (= fifo), as the monitor schema allows; instance order is '
-    'the sequence number in the instance name',
+    'policies are fifo, lifo or absent (the monitor node carries no policy field: the default, '
+    'fifo, applies), as the monitor schema allows; instance order is the sequence number in the '
+    'instance name',
     'the fake cell API answers as the history says; its scheduled-instance quota '
     '(api/instance.py) is a constant bound far above the generated counts',
     'alerts and the /app-monitors suspension summary node are not judged',
@@ -70,7 +73,7 @@ INVS = ['InvNoOvershoot', 'InvBudget', 'InvSurplus', 'InvNotBoth', 'InvQuiet', '
         'InvExtPubSusp', 'InvExtWaitedPublished']
 
 
-def mc_files(tag, apps, counts, ticks, max_steps, outcomes=ALL_OUT, policies=('fifo', 'lifo'),
+def mc_files(tag, apps, counts, ticks, max_steps, outcomes=ALL_OUT, policies=('', 'fifo', 'lifo'),
              max_inst=4, invariants=INVS, defects=()):
     mod = 'MC_appmon_%s' % tag
     text = '---- MODULE %s ----\nEXTENDS AppMon\ncAppSeq == %s\n====\n' % (mod, tla(list(apps)))
@@ -96,7 +99,11 @@ def _model_check(ctx):
 
     def one(job):
         tag, apps, counts, tks, steps, outs = job
-        mod, cfg, files = mc_files(tag, apps, counts, tks, steps, outs)
+        # policy domain: absent ("" - the node has no policy field, the default applies),
+        # fifo, lifo for one application; for two applications absent and lifo (an explicit
+        # fifo behaves like the default in every action; keeps the run time where it was)
+        pols = ('', 'fifo', 'lifo') if len(apps) == 1 else ('', 'lifo')
+        mod, cfg, files = mc_files(tag, apps, counts, tks, steps, outs, policies=pols)
         for attempt in (1, 2):
             try:
                 return tlc.mc(SPEC_DIR, mod, cfg, extra_files=files, workers=8,
@@ -154,11 +161,19 @@ def rand_history(rng, depth):
     """Beyond the model-checked constants: 1-3 applications, counts up to 6, time
     steps that make token values non-integers and (often) land within 1e-6 of an
     integer boundary."""
-    apps = ['proid.app%d' % i for i in range(rng.randint(1, 3))]
+    apps = ['proid.app%d' % i for i in range(rng.choice([1, 2, 2, 3]))]
+    pol = lambda: rng.choice(['', 'fifo', 'lifo'])       # '' = the node carries no policy field
     hist = []
     for a in apps:
         if rng.random() < 0.9:
-            hist.append(['Configure', a, rng.choice([0, 1, 2, 3, 4, 6]), rng.choice(['fifo', 'lifo'])])
+            hist.append(['Configure', a, rng.choice([0, 1, 2, 3, 4, 6]), pol()])
+    if len(apps) > 1 and rng.random() < 0.6:
+        # instances started alternately: the cell-wide sequence numbers of the applications
+        # interleave (app0#0, app1#1, app0#2, app1#3 ...), so grouping /scheduled by
+        # application has to cope with non-contiguous runs
+        for _ in range(rng.randint(2, 4)):
+            for a in apps:
+                hist.append(['ExternalCreate', a])
     for _ in range(depth):
         r = rng.random()
         a = rng.choice(apps)
@@ -180,7 +195,7 @@ def rand_history(rng, depth):
         elif r < 0.86:
             hist.append(['ExternalCreate', a])
         elif r < 0.96:
-            hist.append(['Configure', a, rng.choice([0, 1, 2, 3, 4, 6]), rng.choice(['fifo', 'lifo'])])
+            hist.append(['Configure', a, rng.choice([0, 1, 2, 3, 4, 6]), pol()])
         else:
             hist.append(['DeleteMonitor', a])
     hist.append(['Evaluate', {}])
